@@ -10,7 +10,7 @@ def F(name, fuzztime=60, pkg="props"):
     return dict(fuzz=name, pkg=pkg, thorough=dict(fuzztime=fuzztime))
 
 
-HOOK_COMMITS = []
+HOOK_COMMITS = ["wallet/verif_export.go", "common/db/verif_hooks.go", "p2p/verif_export.go", "p2p/discover/verif_export.go", "protocol/verif_export.go"]
 NOT_APPLICABLE = {}
 
 HIST_ASSUME = ["receiver-mismatch rule enforced from genesis (verifier.ReceiverMismatchEnforcementHeight = 0): the statement speaks "
@@ -277,5 +277,28 @@ CHECKS = {
         jobs=[dict(test="TestC20Determinism", pkg="p20", quick=T(3, 60), thorough=T(6, 600, 0, 3000)),
               dict(test="TestC20Validation", pkg="p20", quick=T(3, 200), thorough=T(5, 2000, 0, 3000)),
               dict(test="TestC20DatabaseMismatch", pkg="p20", quick=T(2, 100), thorough=T(5, 1000, 0, 3000))],
+    ),
+    "C19": dict(
+        level="exploration",
+        level_text="Round trip: generated entropies (all allowed sizes, invalid sizes refused), passwords (empty, ASCII, unicode, "
+                   "1 KiB, near-miss 'other' passwords) through Encrypt -> Write -> ReadKeyFile -> Decrypt and through the node's "
+                   "Manager route; the file's base address is the index-0 address; the file format is cross-checked against an "
+                   "independent argon2id + AES-256-GCM reading. Tamper: sampled single-bit flips of ciphertext / nonce / salt and "
+                   "field-level edits (shorter / longer members, wrong version, missing or wrong-typed argon fields); the expected "
+                   "outcome comes from an independent semantic reading of the corrupted document; a panic is always a violation. "
+                   "Derivation: independent BIP-39 (hand-written PBKDF2-HMAC-SHA512) and SLIP-0010 ed25519 hardened derivation on "
+                   "m/44'/73404'/i', validated at start-up against the published SLIP-0010 vector 1, Trezor BIP-39 vectors and "
+                   "FIPS-202 vectors, must agree with the wallet for generated indices; non-hardened / overflowing / malformed "
+                   "paths are refused; address = 0x00 || sha3-256(pub)[:19]; signatures verify and fail for any flipped bit.",
+        level_note="ed25519 key generation, sha3 and argon2 primitives come from the Go standard library / x/crypto; parameters and "
+                   "layout are re-implemented. A base-address or timestamp edit is not required to be detected.",
+        technique="round-trip, tamper (metamorphic) and reference-implementation property testing (rapid); native fuzzing of the key-file reader",
+        rule="non-trivial = case with a non-empty password and >=1 corruption (round trip / tamper), or touching a derivation index "
+             ">=128 incl. refused indices >= 2^31",
+        assumptions=["leading-zero path numbers may be refused or read as decimal; the lone path 'm' is not asserted"],
+        jobs=[dict(test="TestC19RoundTrip", pkg="p19", quick=T(3, 90), thorough=T(5, 1000, 0, 3000)),
+              dict(test="TestC19Tamper", pkg="p19", quick=T(4, 90), thorough=T(9, 1000, 0, 3000)),
+              dict(test="TestC19Derivation", pkg="p19", quick=T(1, 2500), thorough=T(2, 50000, 0, 3000)),
+              F("FuzzC19KeyFile", 180, "p19")],
     ),
 }
